@@ -265,6 +265,8 @@ def texts(maxlen):
             yield "".join(t)
 
 
+# case mappings that change the length of the text, or differ between upper / title / casefold
+CASE_TEXTS = ("stra\u00dfe", "\ufb01n a", "\u0130stanbul", "\u01f0a", "\u0149 b", "\u1e9e-\u00df", "\u03a3\u03c2 \u03c3", "a\u0345b", "\u01c5a \u01c6", "\u2160\u2170 x")
 CR_TEXTS = ("a\r\nB", "a\rB", "\r\n", "a\n\r", "\r", "a\x0bB", "a\x0cB\x1c", "a B", "a\x85", "\r\r\n\n")
 
 
@@ -282,7 +284,7 @@ def shard(args):
                 acc.state(hash(spec))
             i += 1
     if idx == 0:
-        for t in CR_TEXTS:
+        for t in CR_TEXTS + CASE_TEXTS:
             for spec in C.cuts(t, max_runs=2):
                 check_value(acc, spec, thorough)
     # every character of Latin-1 (and the neighbours of U+2028/U+2029) as a would-be line boundary: str.splitlines breaks on exactly
